@@ -109,6 +109,29 @@ def check(run, driver):
             if abs(lhs - rhs) > TOL(lhs):
                 run.prop_fail("chain rule I(X;Y,Z) = I(X;Z) + I(X;Y|Z) violated", case, {**sig, "clause": "chain"}, {"lhs": lhs, "rhs": rhs})
         meta.append((case, val)); reqs.append({"op": "gauss_ratio", "W": mat(W), "kx": kx, "ky": ky, "kz": kz})
+    # ---- regimes the exact model is too slow for: larger blocks with one shared factor (well conditioned but small determinant)
+    #      and columns whose mean is huge compared with their spread; implementation vs the least-squares reference
+    for it in range(60 if thorough else 24):
+        kx, ky = int(rng.integers(3, 11)), int(rng.integers(3, 11)); kz = int(rng.integers(0, 3))
+        d = kx + ky + kz
+        N = int(rng.integers(4 * d, 8 * d))
+        if it % 2 == 0:
+            common = rng.standard_normal((N, 1))
+            W = 0.8 * common + 0.6 * rng.standard_normal((N, d))
+        else:
+            W = rng.standard_normal((N, d)) @ (rng.standard_normal((d, d)) * 0.3 + np.eye(d))
+            W = W + float(2.0 ** rng.integers(12, 24)) * rng.choice([-1.0, 1.0], size=d)      # exact power-of-two shifts
+        if np.linalg.cond(np.corrcoef(W.T)) > 1e4:
+            continue
+        X, Y, Z = W[:, :kx], W[:, kx:kx + ky], (W[:, kx + ky:] if kz else None)
+        val = float(gaussian_conditional_mutual_information(X, Y, Z))
+        ref = float(ls_reference(X, Y, Z))
+        case = {"N": N, "kx": kx, "ky": ky, "kz": kz, "regime": "shared-factor blocks" if it % 2 == 0 else "large means", "X": X, "Y": Y, "Z": Z}
+        run.case("gaussian-wide", [N, kx, ky, kz, float(W[0, 0])], True, sample={k_: case[k_] for k_ in ("N", "kx", "ky", "kz", "regime")} | {"impl": val, "reference": ref})
+        tol = 1e-8 + 1e-8 * abs(ref) + (1e-6 if it % 2 else 0.0) * 0      # same tolerance as the property
+        if not np.isfinite(val) or abs(val - ref) > (1e-6 + 1e-6 * abs(ref) if it % 2 else 1e-8 + 1e-8 * abs(ref)):
+            run.prop_fail("Gaussian (conditional) MI differs from the partial-covariance closed form on a well-conditioned sample", case,
+                          {"estimator": "gaussian", "kz": kz, "clause": "closed_form", "regime": case["regime"]}, {"impl": val, "reference": ref})
     worst = 0.0
     for (case, val), r in zip(meta, driver.run_sharded(reqs, shards=16)):
         if "ok" not in r:
